@@ -36,6 +36,7 @@ class Core:
         self.global_facts: List[Any] = []
         self._global_heap: Dict[int, Any] = {}
         self._const_cache: Dict[Any, Any] = {}
+        self._ostr_lits: Dict[str, Any] = {}
 
     # ------------------------------------------------------------------ sorts
     def parse_sort(self, text) -> Sort:
@@ -53,6 +54,8 @@ class Core:
             return NONE
         if low == "str":
             return STR
+        if low == "ostr":
+            return OSTR
         m = re.match(r"^(\w+)\[(.*)\]$", t)
         if m:
             head, inner = m.group(1).lower(), m.group(2)
@@ -187,6 +190,16 @@ class Core:
             raise Unsupported(f"cannot store {v} as {sort}")
         if k == "none":
             return None
+        if k == "ostr":
+            if isinstance(v, V) and v.sort.kind == "ostr":
+                return v.t
+            if isinstance(v, V) and v.sort.kind == "str":
+                v = self.from_term(v.t, STR, st)
+            if isinstance(v, VSeq) and v.is_str:
+                return self.ostr_of(v, st)
+            if isinstance(v, V) and v.sort.kind == "opt" and v.sort.args[0].kind == "ostr":
+                return self.U.z3sort(v.sort).val(v.t)
+            raise Unsupported(f"cannot store {getattr(v, 'sort', type(v).__name__)} as ostr")
         if isinstance(v, V):
             if v.sort == sort:
                 return v.t
@@ -215,6 +228,29 @@ class Core:
         if k == "none":
             return V(NONE, None)
         return V(sort, z3.simplify(t) if z3.is_app(t) else t)
+
+    def ostr_of(self, vs: VSeq, st: State):
+        """identity-only view of a string: literals are distinct named constants, anything else an
+        uninterpreted function of the string term (congruence only)"""
+        so = self.U.z3sort(OSTR)
+        lv = seqs.lit_value(vs)
+        if lv is not None:
+            name = "ostr_lit_" + (lv.encode("utf-8").hex() or "empty")
+            c = z3.Const(name, so)
+            if name not in self._ostr_lits:
+                self._ostr_lits[name] = (c, lv)
+                self.global_facts.append(self.ostr_nonempty()(c) == z3.BoolVal(len(lv) > 0))
+                if len(self._ostr_lits) > 1:
+                    self.global_facts.append(z3.Distinct(*[x for x, _ in self._ostr_lits.values()]))
+            return c
+        f = z3.Function("ostr_of", self.U.z3sort(STR), so)
+        t = self.to_term(vs, STR, st)
+        r = f(t)
+        st.assume(self.ostr_nonempty()(r) == (vs.length() > 0))
+        return r
+
+    def ostr_nonempty(self):
+        return z3.Function("ostr_nonempty", self.U.z3sort(OSTR), z3.BoolSort())
 
     def sort_of(self, v, st: State) -> Sort:
         v = self.deref(v, st)
@@ -285,6 +321,8 @@ class Core:
                 return z3.BoolVal(True)
             if k == "opaque":
                 return z3.BoolVal(True)
+            if k == "ostr":
+                return self.ostr_nonempty()(v.t)
         if isinstance(v, VSeq):
             return v.length() > 0
         if isinstance(v, VTuple):
